@@ -56,7 +56,16 @@ def part_kernel(ctx, cfg):
     from vsym.core import HarnessError
     r = kern.run_kernel(cfg['kernel'], cross=cfg.get('cross', False))
     ctx.report('kernels', r['report'])
-    if r['answer'] in ('cannot-encode', 'undecided'):
+    if r['answer'] == 'cannot-encode':
+        # the translator does not cover the function's current source: the
+        # kernel claim is not made on this tree (reported, not approximated)
+        ctx.note('kernel_not_encodable', r['report'].get('reason', ''))
+        ctx.report('kernels_not_encodable', cfg['kernel'])
+        print('NOTE property=%s kernel %s cannot be encoded on this source '
+              '(%s): claim not made' % (PROPERTY, cfg['kernel'],
+                                        r['report'].get('reason', '')))
+        return
+    if r['answer'] == 'undecided':
         raise HarnessError('kernel %s: %s %s' % (
             cfg['kernel'], r['answer'], r['report'].get('reason', '')))
     ctx.claim('C08.kernel', r['answer'] == 'holds',
@@ -349,3 +358,4 @@ def part_units(ctx, cfg):
     ctx.claim('C08.units', ok, sig='units',
               info=lambda: dict(declared=str(declared), update=str(mag * uu),
                                 got=str(val)))
+OPTIONAL_CLAIMS = ('C08.kernel',)
